@@ -95,9 +95,23 @@ class C(Exception):
 
 
 CLASSES = {'Exception': Exception, 'A': A, 'B': B, 'C': C,
-           'IOError': IOError, 'EOFError': EOFError}
+           'IOError': IOError, 'EOFError': EOFError,
+           # built-in classes that library code also raises and catches for
+           # its own purposes: one escaping a listener is the listener's
+           'IndexError': IndexError, 'KeyError': KeyError,
+           'ValueError': ValueError, 'TypeError': TypeError,
+           'AttributeError': AttributeError, 'StopIteration': StopIteration,
+           'RuntimeError': RuntimeError, 'AssertionError': AssertionError,
+           'LookupError': LookupError, 'UnicodeDecodeError': None}
+class _UDE(UnicodeDecodeError):
+    def __init__(self, msg='x'):
+        UnicodeDecodeError.__init__(self, 'utf-8', b'\xff', 0, 1, msg)
+
+
+CLASSES['UnicodeDecodeError'] = _UDE
 FILTERS = [(), ('A',), ('B',), ('C',), ('A', 'C'), ('IOError',),
-           ('EOFError',), ('Exception',), ('B', 'EOFError')]
+           ('EOFError',), ('Exception',), ('B', 'EOFError'),
+           ('LookupError',), ('ValueError', 'KeyError')]
 ORIGINS = ['early_listener', 'listener', 'login_listener',
            'reaction_login_disconnect', 'reaction_status_json', 'decoder',
            'outgoing_listener', 'exit_callback', 'hook_raises']
@@ -603,6 +617,27 @@ def t_enumerate(ctx, shard, nshards):
                         'raise C} x 4 finals x 3 fault classes')
 
 
+def t_classes(ctx):
+    """every fault class x every place a user callable can raise from"""
+    for origin in ('early_listener', 'listener', 'login_listener',
+                   'outgoing_listener', 'exit_callback'):
+        for exc in sorted(CLASSES):
+            for final in ('return', 'none'):
+                for chain in ([], [{'filter': [exc], 'early': False,
+                                    'do': 'return'}],
+                              [{'filter': ['A'], 'early': False,
+                                'do': 'return'},
+                               {'filter': ['Exception'], 'early': False,
+                                'do': 'reraise'}]):
+                    route_case(ctx, fix_case({
+                        'origin': origin, 'exc': exc,
+                        'chain': [dict(h) for h in chain], 'final': final,
+                        'final_new': 'C', 'compress': None,
+                        'version': 757}))
+    ctx.exhaustive_done('%d fault classes x 5 user-code origins x 2 finals '
+                        'x 3 chains' % len(CLASSES))
+
+
 def t_origins(ctx):
     for origin in ORIGINS:
         for final in ('none', 'false', 'return', 'raise'):
@@ -673,7 +708,7 @@ def t_random(ctx, n):
 
 def tasks(tier):
     q = tier == 'quick'
-    tl = [('origins', t_origins, {})]
+    tl = [('origins', t_origins, {}), ('classes', t_classes, {})]
     nsh = 8 if q else 12
     for i in range(nsh):
         tl.append(('enum_%d' % i, t_enumerate, dict(shard=i, nshards=nsh)))
